@@ -98,3 +98,28 @@ package controllers
 //@   assert before For: [namespaces] len(arg0.Namespaces) == len(fromK8s.Namespaces) && (forall a int, b int :: 0 <= a && a < b && b < len(arg0.Namespaces) ==> !(nameOf(arg0.Namespaces[b]) < nameOf(arg0.Namespaces[a])))
 //@   assert before For: [communities] len(arg0.Communities) == len(fromK8s.Communities) && (forall a int, b int :: 0 <= a && a < b && b < len(arg0.Communities) ==> !(nameOf(arg0.Communities[b]) < nameOf(arg0.Communities[a])))
 //@   assert before For: [bfd] len(arg0.BFDProfiles) == len(fromK8s.BFDProfiles) && (forall a int, b int :: 0 <= a && a < b && b < len(arg0.BFDProfiles) ==> !(nameOf(arg0.BFDProfiles[b]) < nameOf(arg0.BFDProfiles[a])))
+
+// ---- C18 / C09 (mechanism): the configuration reconciler ----
+//@ func field:go.universe.tf/metallb/internal/k8s/controllers.ConfigReconciler.Handler
+//@   trusted
+//@   modifies nothing
+//@ func field:go.universe.tf/metallb/internal/k8s/controllers.ConfigReconciler.ForceReload
+//@   trusted
+//@   modifies nothing
+//@ func dumpClusterResources
+//@   trusted
+//@   modifies nothing
+//@ func dumpConfig
+//@   trusted
+//@   modifies nothing
+// requestHandler, the body of ConfigReconciler.Reconcile (the function literal init$1; abstracted mode): the handler gets the freshly parsed configuration, which is remembered
+// unless the handler failed with a retryable error (then it is forgotten so that the retry is not taken for "unchanged");
+// a service reload is forced only on the handler's request
+//@ func init$1
+//@   abstract
+//@   requires [errVar] errRetry != nil
+//@   assert before Handler: [handsParsed] arg1 == cfg && r.currentConfig == cfg
+//@   assert before ForceReload: [onRequest] res == SyncStateReprocessAll
+//@   exit assert [errorForgets] res == SyncStateError ==> r.currentConfig == nil
+//@   exit assert [errorRetried] res == SyncStateError ==> result1 != nil
+//@   exit assert [remembered] res != SyncStateError ==> r.currentConfig == cfg
